@@ -58,6 +58,13 @@ def layouts(rng, s, quick):
         if not quick:
             for p in itertools.islice(itertools.permutations(fs), 6):
                 out.append(('files-perm', [('F', f) for f in p]))
+    if fs:
+        # one file reachable twice in one invocation: the directory and one of its own files (either order), and the same
+        # file under two spellings of its path - the set of files is the same, so is the result
+        f = rng.choice(fs)
+        out.append(rng.choice([('dir-plus-own-file', [('D', fs), ('FIN', f, 0)]), ('own-file-plus-dir', [('FIN', f, 0), ('D', fs)])]))
+        if rng.random() < 0.5:
+            out.append(('file-twice-spelled', [('F', x) for x in fs] + [('F2', f)]))
     if rng.random() < 0.4:
         # the missing path first, last or in the middle: every position must make the command fail
         args = [('F', f) for f in fs]
@@ -72,18 +79,28 @@ def layouts(rng, s, quick):
 
 def run_one(action, args):
     with cli.Workdir() as w:
+        dirs = []
+        for a in args:
+            if a[0] == 'D':
+                d = os.path.join(w.path, f'dir{len(dirs)}'); dirs.append(d)
+                os.makedirs(d)
+                for f in a[1]:
+                    if f['kind'] == 'subdir': os.makedirs(os.path.join(d, f['name']))
+                    else: open(os.path.join(d, f['name']), 'wb').write(f['data'])
         argv = [action]
         dcount = 0
         for a in args:
             if a[0] == 'F':
                 argv.append(w.write(os.path.join('files', a[1]['name']), a[1]['data']))
+            elif a[0] == 'F2':
+                # the same file as an earlier ('F', f) argument, its path spelled differently
+                argv.append(os.path.join(w.path, 'files', '.', a[1]['name']))
+            elif a[0] == 'FIN':
+                # a file of the k-th directory argument, named on its own (path spelled through `..`)
+                d = dirs[a[2]]
+                argv.append(os.path.join(d, '..', os.path.basename(d), a[1]['name']))
             elif a[0] == 'D':
-                d = os.path.join(w.path, f'dir{dcount}'); dcount += 1
-                os.makedirs(d)
-                for f in a[1]:
-                    if f['kind'] == 'subdir': os.makedirs(os.path.join(d, f['name']))
-                    else: open(os.path.join(d, f['name']), 'wb').write(f['data'])
-                argv.append(d)
+                argv.append(dirs[dcount]); dcount += 1
             else:
                 argv.append(os.path.join(w.path, 'no_such_file.st'))
         r = cli.run_cli(argv)
@@ -108,6 +125,7 @@ def run(ctx):
         for a in j['args']:
             if a[0] == 'F': parts.append('F ' + model_file(a[1]))
             elif a[0] == 'D': parts.append('D ' + ' , '.join(model_file(f) for f in a[1]))
+            elif a[0] in ('FIN', 'F2'): pass     # (a second path to a file of the set: the set is unchanged)
             else: parts.append('M')
         return f"cli {j['action']} " + ' ; '.join(parts)
     model = core.run_lines(core.PLCDRV, [enc(j) for j in jobs], jobs=8) if ctx.model_available else [None] * len(jobs)
@@ -115,7 +133,7 @@ def run(ctx):
     for j, r, mo in zip(jobs, res, model):
         ctx.evaluations += 1
         ctx.count(f"action:{j['action']}"); ctx.count(f"layout:{j['layout']}"); ctx.count(f"set:{j['set']['kind']}")
-        kinds = tuple(f['kind'] for a in j['args'] if a[0] != 'M' for f in ([a[1]] if a[0] == 'F' else a[1]))
+        kinds = tuple(f['kind'] for a in j['args'] if a[0] in ('F', 'D') for f in ([a[1]] if a[0] == 'F' else a[1]))
         show = {'action': j['action'], 'layout': j['layout'], 'set': j['set']['kind'], 'files': kinds, 'request': enc(j)[:1500]}
         if len(j['args']) >= 2 or any(a[0] == 'D' for a in j['args']):
             ctx.feature((j['action'], j['layout'], j['set']['kind'], kinds))
@@ -144,7 +162,7 @@ def run(ctx):
             if (r['rc'] == 0) != r['ok_line'] or (r['rc'] == 0) != (not codes):
                 ctx.violations.append({'stream': 'cli', 'case': show, 'impl': obs + ' | ' + cli.strip_ansi(r['stderr'])[-300:], 'model': mo,
                                        'what': f'check: exit status {r["rc"]}, OK line {r["ok_line"]} and coded diagnostics {sorted(codes)} do not agree'})
-            if j['layout'] in ('files', 'dir', 'mixed', 'files-rev', 'files-perm'):
+            if j['layout'] in ('files', 'dir', 'mixed', 'files-rev', 'files-perm', 'dir-plus-own-file', 'own-file-plus-dir', 'file-twice-spelled'):
                 key = id(j['set'])
                 sig = (r['rc'], r['ok_line'], tuple(sorted(codes)))
                 if key not in by_set: by_set[key] = (sig, j['layout'])
@@ -152,7 +170,7 @@ def run(ctx):
                     ctx.violations.append({'stream': 'cli', 'case': show, 'impl': obs, 'model': mo,
                                            'what': f'check of the same files as `{j["layout"]}` gives {sig} but as `{by_set[key][1]}` gives {by_set[key][0]}'})
         else:
-            allk = [f['kind'] for a in j['args'] if a[0] != 'M' for f in ([a[1]] if a[0] == 'F' else a[1])]
+            allk = [f['kind'] for a in j['args'] if a[0] in ('F', 'D') for f in ([a[1]] if a[0] == 'F' else a[1])]
             missing = any(a[0] == 'M' for a in j['args'])
             readable = not missing and not any(k in ('undecodable', 'subdir') for k in allk)
             if j['action'] == 'echo':
